@@ -2,6 +2,7 @@ package props
 
 import (
 	"fmt"
+	"github.com/beevik/etree"
 	"math/rand/v2"
 	"strings"
 	"time"
@@ -15,7 +16,7 @@ import (
 
 func init() {
 	register(&Prop{ID: "C03", Run: runC03, MinNontrivial: 500,
-		Rule:        "cases = a conforming record with 0-3 injected faults from {Version 1.1/empty/absent; Destination other/near-miss/empty/absent; Response Issuer absent/other/empty; assertion Issuer same three; Status absent, StatusCode absent, non-Success, Success only at second level; zero assertions; Subject / SubjectConfirmation / SubjectConfirmationData absent; method holder-of-key / sender-vouches / empty; Recipient absent/other/near-miss; NotOnOrAfter absent/malformed/past}, 1-4 assertions with the fault in position k, then signed by the IdP (Response, assertions or both) or presented to a skip-signature SP, IdP issuer configured or empty; plus direct Validate(*types.Response) calls on hand-built structs and a multi-SubjectConfirmation class (implication only); oracle: reference validator over the record -> set V of typed errors; accept iff V empty; a rejection's type+key is a member of V (wrapped in ErrVerification through RetrieveAssertionInfo); non-trivial = signature processing passed and the profile logic decided; distinct by parameter tuple; SP clocks off the whole second with bounds inside the current second; configured ACS / issuer values containing list, glob and URL metacharacters; near-miss values (trimmed, case-folded, percent- or entity-encoded once more, cut at ?/#, list pieces, other configured fields) for Destination, Recipient and both Issuers; unreadable unchecked timestamps in an earlier assertion; an accepted Response returns as many assertions as it carries; Version values that are other spellings of the number 2.0; Issuer elements carrying any Format attribute",
+		Rule:        "cases = a conforming record with 0-3 injected faults from {Version 1.1/empty/absent; Destination other/near-miss/empty/absent; Response Issuer absent/other/empty; assertion Issuer same three; Status absent, StatusCode absent, non-Success, Success only at second level; zero assertions; Subject / SubjectConfirmation / SubjectConfirmationData absent; method holder-of-key / sender-vouches / empty; Recipient absent/other/near-miss; NotOnOrAfter absent/malformed/past}, 1-4 assertions with the fault in position k, then signed by the IdP (Response, assertions or both) or presented to a skip-signature SP, IdP issuer configured or empty; plus direct Validate(*types.Response) calls on hand-built structs and a multi-SubjectConfirmation class (implication only); oracle: reference validator over the record -> set V of typed errors; accept iff V empty; a rejection's type+key is a member of V (wrapped in ErrVerification through RetrieveAssertionInfo); non-trivial = signature processing passed and the profile logic decided; distinct by parameter tuple; SP clocks off the whole second with bounds inside the current second; configured ACS / issuer values containing list, glob and URL metacharacters; near-miss values (trimmed, case-folded, percent- or entity-encoded once more, cut at ?/#, list pieces, other configured fields) for Destination, Recipient and both Issuers; unreadable unchecked timestamps in an earlier assertion; an accepted Response returns as many assertions as it carries; Version values that are other spellings of the number 2.0; Issuer elements carrying any Format attribute; every top-level status value of the specification, with second-level codes; the provider's outbound-only settings (passive, forced, NameID format, requested contexts) set at random in a third of the cases; skip-signature providers given Responses whose only assertion is an EncryptedAssertion",
 		Assumptions: []string{"check order is not promised: any member of V is an acceptable rejection", "with several SubjectConfirmations only 'accepted => a valid bearer confirmation exists' is asserted (encoding/xml merges repeated singleton children)"}})
 }
 
@@ -143,7 +144,12 @@ func injectSSOFault(r *rand.Rand, rec *sim.Response, now time.Time, f string) st
 	case "statuscode-absent":
 		rec.StatusCodes = nil
 	case "status-requester":
-		rec.StatusCodes = []string{pick(r, []string{"urn:oasis:names:tc:SAML:2.0:status:Requester", "urn:oasis:names:tc:SAML:2.0:status:Responder", "", sim.StatusSuccess + "x", strings.ToLower(sim.StatusSuccess)})}
+		rec.StatusCodes = []string{pick(r, []string{"urn:oasis:names:tc:SAML:2.0:status:Requester", "urn:oasis:names:tc:SAML:2.0:status:Responder", "", sim.StatusSuccess + "x", strings.ToLower(sim.StatusSuccess),
+			"urn:oasis:names:tc:SAML:2.0:status:NoPassive", "urn:oasis:names:tc:SAML:2.0:status:VersionMismatch", "urn:oasis:names:tc:SAML:2.0:status:AuthnFailed", "urn:oasis:names:tc:SAML:2.0:status:PartialLogout",
+			"urn:oasis:names:tc:SAML:2.0:status:RequestDenied", "urn:oasis:names:tc:SAML:2.0:status:UnknownPrincipal", "urn:oasis:names:tc:SAML:2.0:status:NoAuthnContext"})}
+		if r.IntN(3) == 0 {
+			rec.StatusCodes = append(rec.StatusCodes, pick(r, []string{"urn:oasis:names:tc:SAML:2.0:status:NoPassive", "urn:oasis:names:tc:SAML:2.0:status:AuthnFailed", sim.StatusSuccess}))
+		}
 	case "status-second-level":
 		rec.StatusCodes = []string{"urn:oasis:names:tc:SAML:2.0:status:Responder", sim.StatusSuccess}
 	case "zero-assertions":
@@ -308,6 +314,21 @@ func runC03(c *mon.Ctx) {
 			cs.Note("%v", err)
 			continue
 		}
+		if mode == "skip" && len(rec.Assertions) == 0 && r.IntN(2) == 0 {
+			// no assertion to check - only ciphertext that a provider which does not verify does not open either
+			if d, perr := sim.ParseDoc(doc); perr == nil {
+				for i := 1 + r.IntN(2); i > 0; i-- {
+					ea := etree.NewElement("saml:EncryptedAssertion")
+					ea.CreateAttr("xmlns:saml", sim.NSA)
+					ed := ea.CreateElement("xenc:EncryptedData")
+					ed.CreateAttr("xmlns:xenc", sim.NSXENC)
+					ed.CreateElement("xenc:CipherData").CreateElement("xenc:CipherValue").SetText("AAAAAAAAAAAAAAAAAAAAAAAAAAAAAAAAAAAAAAAAAAA=")
+					d.Root().AddChild(ea)
+				}
+				doc = sim.DocString(d)
+				faults = append(faults, "only-encrypted-assertions")
+			}
+		}
 		cs.Desc("na=%d faults=%v mode=%s cfgIssuer=%q acs=%q oddstamp=%q", na, faults, mode, cfgIssuer, c03ACS, oddStamp)
 		cs.Input([]byte(doc))
 		sp, _, _ := pool.SPSource(k, now, signer)
@@ -316,6 +337,11 @@ func runC03(c *mon.Ctx) {
 		sp.SkipSignatureValidation = mode == "skip"
 		if r.IntN(8) == 0 {
 			cs.Note("before validating: %s", OtherUse(r, sp))
+		}
+		if r.IntN(3) == 0 {
+			cs.Note("outbound-only settings: %s", RandomiseUnrelated(r, sp))
+		} else if k%2 == 1 {
+			sp.IsPassive, sp.ForceAuthn, sp.NameIdFormat, sp.RequestedAuthnContext = false, false, "", nil // the pooled provider
 		}
 		enc := sim.Encode(doc, sim.RawLevel)
 		V := ssoChecks(rec, now, cfgIssuer)
